@@ -965,7 +965,10 @@ impl Monitors {
                     }
                 } else if let Some(e) = result.get("err").and_then(|e| e.as_str()) {
                     if is_wait {
-                        self.v(prop, "wait_aborted_with_error", format!("wait_payment returned Err({e}) although no RPC-level error was injected; parts {parts:?}"), json!({"live": live}));
+                        // an RPC-level error (transport, -1, 200, failed list query) may end the wait with Err; part-level codes may not
+                        if self.stats.read_faults_hit == 0 {
+                            self.v(prop, "wait_aborted_with_error", format!("wait_payment returned Err({e}) although no RPC-level error was injected; parts {parts:?}"), json!({"live": live}));
+                        }
                     } else if live {
                         self.v(
                             prop,
